@@ -438,11 +438,34 @@ fn main() {
         for s in &shapes {
             both(&mut w, &root, &mut n, &probes, s);
         }
+        // histories across a second count that gains a decimal digit (999_999 s -> 1_000_000 s; the
+        // SQLite backend stores a stamp as its Display text): overwrite, delete and re-put across it
+        let edge = 1_000_000u64 * 250;
+        let e = |d: i64, c: u64, node: u64| mk((edge as i64 + d) as u64, c, node);
+        let probes_edge = vec![e(-500, 0, 1), e(W_TICKS as i64, 0, 1), e(3 * W_TICKS as i64, 0, 1)];
+        let shapes3: Vec<Vec<String>> = vec![
+            vec![format!("s:0:1:{:x}:61:k", e(-250, 0, 1)), format!("s:0:1:{:x}:62:k", e(0, 0, 1)), "R".into(),
+                 format!("d:1:1:{:x}:k", e(250, 0, 2)), "R".into()],
+            vec![format!("s:0:1:{:x}:61:k", e(-1, 0, 1)), format!("d:0:1:{:x}:k", e(1, 0, 1)), "R".into(),
+                 format!("s:1:1:{:x}:63:k", e(2, 0, 2)), "R".into()],
+            vec![format!("S:0:k:1.{a:x}.64,2.{a:x}.65", a = e(-3, 0, 1)), "R".into(),
+                 format!("S:0:k:1.{b:x}.66,2.{b:x}.67", b = e(3, 0, 1)), "R".into(),
+                 format!("D:1:k:1.{c:x},2.{c:x}", c = e(4, 0, 2)), "R".into()],
+        ];
+        for s in &shapes3 {
+            both(&mut w, &root, &mut n, &probes_edge, s);
+        }
         let count = if args.thorough() { 6000 } else { 600 };
-        for _ in 0..count {
+        for i in 0..count {
             let len = 3 + rng.below(12);
-            let h = random_history(&mut rng, base + 100, len);
-            both(&mut w, &root, &mut n, &probes, &h);
+            // every fourth random history starts a few ticks before that edge
+            if i % 4 == 3 {
+                let h = random_history(&mut rng, edge - 6, len);
+                both(&mut w, &root, &mut n, &probes_edge, &h);
+            } else {
+                let h = random_history(&mut rng, base + 100, len);
+                both(&mut w, &root, &mut n, &probes, &h);
+            }
         }
     }
     let _ = std::fs::remove_dir_all(&root);
